@@ -408,6 +408,12 @@ def run(ctx, rep):
     # counts only the day's purchases files it under another line, and the adjustment is dropped or lands on another lot
     import rules.c09 as c09
     c09.shared_index_space(R, rep, "R7")
+    # the weights by which a capital return / accumulation is spread are the shares each lot still HOLDS (original − consumed …):
+    # a function that restates a lot's size (at a SPLIT/UNSPLIT) must restate every share count of the lot, or "held" changes by
+    # more than the ratio, goes negative for a mostly-sold lot, the weights no longer sum to 1 and cost is invented or destroyed
+    # (shared with C10-R6; seeded change C03-s9)
+    import rules.c10 as c10
+    c10.lots_restated_whole(R, rep, "R6")
     pair_costs(R, rep)
     same_day_weights(R, rep)
     sibling_unit_cost(R, rep)
